@@ -184,7 +184,8 @@ def run(ctx):
     g, res = objcheck.tlc_graph(ctx, "MC_ListSeq.tla", cfg)
     walks = (300, 40) if ctx.tier == "quick" else (5000, 60)
     for cls in CLASSES:
-        objcheck.replay_cover(ctx, g, [tok(INIT)], exe, cls, [cls], keyfn, walks=walks)
+        objcheck.replay_cover(ctx, g, [tok(INIT)], exe, cls, [cls], keyfn, walks=walks,
+                              pairs=(40000 if ctx.tier == "quick" else 600000))
     trace_validation(ctx, exe)
     ctx.cov["exhaustive"] = True
     ctx.cov["rule"] = ("every transition TLC generates for ListSeq in the bounded scope is executed once per class as the last step of a "
